@@ -75,6 +75,55 @@ def check_local():
     return None
 
 
+def check_seek(whences=(os.SEEK_CUR,), where='inside'):
+    """relative / absolute seeks on a length-limited local stream (real TruncatedReadableBinaryIO behind the real
+    _ReadableStreamFromBlocking).  Whatever coordinate system a seek uses, afterwards the stream must hand out exactly the
+    file's bytes from the position the file was moved to up to the end of the window [start, start+length) - never a byte
+    outside the window, never fewer than are left in it."""
+    plans = {
+        os.SEEK_CUR: [[('read', 4), ('seek', -4)], [('seek', 2)], [('seek', 0)], [('read', 3), ('seek', 2)], [('read', 5), ('seek', -2), ('read', 1), ('seek', 1)]],
+        os.SEEK_SET: [[('seek', 0)], [('seek', 3)], [('read', 4), ('seek', 5)]],
+        os.SEEK_END: [[('seek', -2)], [('seek', -8)], [('read', 2), ('seek', -1)]],
+    }
+    import tempfile
+    tmp = tempfile.NamedTemporaryFile(prefix='c23-seek-', delete=False)  # a real file: io.BytesIO clamps negative targets instead of failing
+    tmp.write(DATA)
+    tmp.close()
+    try:
+        return _check_seek(whences, plans, tmp.name, where)
+    finally:
+        os.unlink(tmp.name)
+
+
+def _check_seek(whences, plans, path, where):
+    for whence in whences:
+        for start in (0, 3, 20):
+            for length in (8, 1, N - start):
+                for plan in plans[whence] + ([[('seek', start + k - N)] for k in (0, 2) if start + k - N < 0] if whence == os.SEEK_END else []):
+                    f = open(path, 'rb')
+                    f.seek(start)
+                    s = FromBlocking(None, Trunc(f, length))
+                    lo, hi = start, min(start + length, N)
+                    try:
+                        for op, k in plan:
+                            if op == 'read':
+                                asyncio.run(s.read(k))
+                            else:
+                                asyncio.run(s.seek(k, whence))
+                        pos = f.tell()
+                        got = asyncio.run(s.read())
+                    except (ValueError, OSError, AssertionError):
+                        continue  # a seek the stream refuses hands out nothing
+                    if (lo <= pos <= hi) != (where == 'inside'):
+                        continue  # 'inside': seeks that land in the window; 'outside': seeks that leave it (nothing may be handed out)
+                    want = DATA[pos:hi] if lo <= pos <= hi else b''
+                    if got != want:
+                        return {'confirmed': True, 'what': 'after a seek (whence=%d) a length-limited local stream does not deliver exactly the bytes between the file position and the end of the requested range' % whence,
+                                'object_size': N, 'start': start, 'length': length, 'plan': plan + [('read', -1)], 'whence': whence, 'file_position_after_the_seek': pos, 'requested_range': [lo, hi],
+                                'returned_bytes_at': [DATA.index(bytes([b])) for b in got], 'expected_bytes_at': list(range(pos, hi)) if lo <= pos <= hi else []}
+    return None
+
+
 # ---- Azure: the real AzureReadableStream against a fake BlobClient
 class ResourceNotFoundError(Exception):
     pass
@@ -143,6 +192,21 @@ def check_azure():
                 want = expect(start, length)
                 if not want.startswith(got) or (plan[-1] in (-1, 100) and got != want):
                     return {'confirmed': True, 'what': 'Azure stream opened with an offset and a length delivers bytes outside / other than the requested range', 'offset': start, 'length': length, 'read_sizes': plan, 'returned': list(got), 'requested_range': list(want), 'download_blob_requests': fs.log}
+    # a range that starts at or after the end of the blob (the service answers 416): readexactly signals UnexpectedEOFError
+    for start in (N, N + 5, N - 2):
+        for length in (1, 4, 9):
+            fs = FakeFS()
+            s = Stream(fs, url, offset=start, length=length)
+            want = expect(start, length)
+            try:
+                got = asyncio.run(s.readexactly(length))
+                ok, how = len(want) == length and got == want, list(got)
+            except UnexpectedEOFError:
+                ok, how = len(want) < length, 'UnexpectedEOFError'
+            except Exception as e:  # pylint: disable=broad-except
+                ok, how = False, '%s (status_code=%r)' % (type(e).__name__, getattr(e, 'status_code', None))
+            if not ok:
+                return {'confirmed': True, 'what': 'Azure range read neither returns exactly the requested span nor signals UnexpectedEOFError', 'blob_size': N, 'offset': start, 'length': length, 'readexactly': length, 'outcome': how, 'expected': list(want) if len(want) == length else 'UnexpectedEOFError', 'download_blob_requests': fs.log}
     return None
 
 
@@ -245,8 +309,115 @@ def check_read_range():
     return None
 
 
+# ---- GCS request path: the real GoogleStorageAsyncFS -> GoogleStorageClient.get_object -> Session.get -> Session.request ->
+# Session._request_with_valid_authn chain over a fake wire that honours Range as RFC 7233 says (no Range: the whole object)
+def check_gcs_chain():
+    import re
+    from contracts.native import stubimport
+    stubimport.install()
+    sys.modules['pyspark'] = None  # "not installed": the requester-pays lookup then skips the Spark configuration
+    from hailtop.aiocloud.aiogoogle import GoogleStorageAsyncFS, GoogleStorageClient
+    from hailtop.aiocloud.common import Session
+
+    class Creds:
+        def __init__(self, headers):
+            self.headers = headers
+
+        async def auth_headers_with_expiration(self):
+            return dict(self.headers), None
+
+        async def access_token_with_expiration(self):
+            return 'tok', None
+
+        async def close(self):
+            pass
+
+    class Resp:
+        def __init__(self, body):
+            self.status, self.headers = 206, {}
+            self.content = asyncio.StreamReader()
+            self.content.feed_data(body)
+            self.content.feed_eof()
+
+        def close(self):
+            pass
+
+        def release(self):
+            pass
+
+    class Wire:
+        def __init__(self):
+            self.seen = []
+            self.raised = None
+
+        async def request(self, method, url, **kwargs):
+            h = dict(kwargs.get('headers') or {})
+            self.seen.append({'method': method, 'headers': h, 'params': dict(kwargs.get('params') or {})})
+            rng = h.get('Range')
+            if rng is None:
+                return Resp(DATA)
+            m = re.fullmatch(r'bytes=(\d+)-(\d*)', rng)
+            a = int(m.group(1))
+            if a >= N:
+                import aiohttp  # the (stubbed) class get_object catches; the service answers such a range with 416
+                e = aiohttp.ClientResponseError(None, (), status=416, message='Requested Range Not Satisfiable')
+                e.status = 416
+                self.raised = e
+                raise e
+            b = int(m.group(2)) if m.group(2) else N - 1
+            return Resp(DATA[a:min(b, N - 1) + 1])
+
+        async def close(self):
+            pass
+
+    async def run(auth):
+        wire = Wire()
+        fs = GoogleStorageAsyncFS(storage_client=GoogleStorageClient(session=Session(credentials=Creds(auth), http_session=wire)))
+        for start, length in ((5, 5), (0, 1), (N - 1, 1), (17, None), (3, 9)):
+            if length is None:
+                got = await fs.read_from('gs://bucket/obj', start)
+            else:
+                got = await fs.read_range('gs://bucket/obj', start, start + length - 1)
+            if got != expect(start, length):
+                return {'confirmed': True, 'what': 'a GCS ranged read through the real GoogleStorageAsyncFS / GoogleStorageClient / Session request path does not return the requested bytes', 'credentials_auth_headers': auth, 'object_size': N, 'start': start, 'length': length, 'returned_bytes': len(got), 'expected': list(expect(start, length)), 'requests_that_reached_the_wire': wire.seen[-1:]}
+        # a range that starts at or after the end of the object: the wire answers 416; get_object (called the way _open_from
+        # calls it, but without the retry wrapper, whose error classification needs packages that are only stubbed here) must
+        # turn exactly that into UnexpectedEOFError.  Only the wire's own exception escaping counts; anything else is a
+        # harness problem and is raised as such.
+        for start, length in ((N, 3), (N + 4, 1)):
+            try:
+                await fs._storage_client.get_object('bucket', 'obj', headers={'Range': 'bytes=%d-%d' % (start, start + length - 1)}, retry=False)
+                how = 'a stream'
+            except UnexpectedEOFError:
+                continue
+            except Exception as e:  # pylint: disable=broad-except
+                if type(e).__name__ == 'UnexpectedEOFError':
+                    continue
+                if e is not wire.raised:
+                    raise
+                how = '%s (status=%r) escapes unmapped' % (type(e).__name__, getattr(e, 'status', None))
+            return {'confirmed': True, 'what': 'a GCS range request that starts at or after the end of the object (answered 416) is not signalled as UnexpectedEOFError by GoogleStorageClient.get_object', 'object_size': N, 'start': start, 'length': length, 'outcome': how, 'expected': 'UnexpectedEOFError'}
+        return None
+
+    for auth in ({'Authorization': 'Bearer tok'}, {}):
+        r = asyncio.run(run(auth))
+        if r:
+            return r
+    return None
+
+
+try:
+    payload = json.loads(sys.stdin.read() or '{}')
+except Exception:  # pylint: disable=broad-except
+    payload = {}
 res = None
-for f in (check_read_range, check_local, check_http, check_azure):
+if payload.get('mode') == 'seek':
+    # replay of one clause of the TruncatedReadableBinaryIO.seek contract (the whence it is about); SEEK_SET / SEEK_END are a
+    # recorded finding of the unchanged code and therefore NOT part of the general search below
+    checks = (lambda: check_seek((payload['whence'],) if payload.get('whence') is not None else (os.SEEK_CUR, os.SEEK_SET, os.SEEK_END), payload.get('where', 'inside')),)
+else:
+    checks = (check_read_range, check_local, check_seek, check_http, check_azure, check_gcs_chain)
+for f in checks:
     try:
         res = f()
     except Exception as e:  # pylint: disable=broad-except
